@@ -168,7 +168,12 @@ pub fn run_c05_c06(prop: &str) -> Report {
             let scripts = representatives(c, *strict);
             let chain = world_for(c, &scripts, 4);
             let world = World::simple(c, &chain.blocks, 0);
-            let spec = RunSpec::new(c.name, cbn);
+            let mut spec = RunSpec::new(c.name, cbn);
+            // the file-producing callbacks at trace verbosity (log statements are code too; their arguments are only evaluated
+            // when the level is on), the two printing callbacks at the default
+            if !matches!(*cbn, "simplestats" | "opreturn") {
+                spec.verbosity = if *strict { 3 } else { 2 };
+            }
             let r = match wk.world_run(&world, &spec) {
                 Ok(r) => r,
                 Err(m) => return acc.machinery(m),
@@ -293,7 +298,9 @@ pub fn run_c16() -> Report {
                 cb.push_raw(all);
             }
             let world = World::simple(c, &cb.blocks, 0);
-            let spec = RunSpec::new(c.name, "opreturn").range(*s0, *e0);
+            // every other case at trace verbosity: the printed lines are the same, the log lines around them are not judged
+            let mut spec = RunSpec::new(c.name, "opreturn").range(*s0, *e0);
+            spec.verbosity = if _i % 2 == 1 { 3 } else { 0 };
             let r = match wk.world_run(&world, &spec) {
                 Ok(r) => r,
                 Err(m) => return acc.machinery(m),
